@@ -377,7 +377,12 @@ def mk_aligned(n, MULT):
         for c in out:
             s = s + c
         e.check(lambda: s == tot, "aligned chunks do not add up to the axis length")
-        e.check(lambda: _and(c > 0 for c in out), "aligned chunks contain an empty (or negative) chunk")
+        # an empty axis keeps exactly one empty chunk (chunks may not be an empty tuple); otherwise no chunk is empty
+        if len(out) == 1:
+            e.check(lambda: (out[0] > 0) | (tot == 0), "aligned chunks contain an empty (or negative) chunk")
+        else:
+            e.check(lambda: _and(c > 0 for c in out), "aligned chunks contain an empty (or negative) chunk")
+        e.check(len(out) >= 1, "aligned chunks are an empty tuple")
         e.check(lambda: _and(c % m == 0 for c in out[:-1]), "an aligned chunk other than the last is not a multiple of the coarsening factor "
                                                              "(chunk.coarsen would trim or refuse data in the middle of the axis)")
         if out:
